@@ -68,6 +68,25 @@ func (c11) Gen(r *rand.Rand, tier string, run int) *core.Case {
 		c.Ops = []core.Op{{Kind: "scenario", X: int64(block / 10 % 4)}}
 		return c
 	}
+	if block%10 == 9 {
+		// a block in which the client also hosts an object: it lends it to
+		// the objects of the service, other clients make those relay more
+		// calls to it at once than its queue holds (the client's endpoint
+		// sheds them with error answers), and the connection is lost in the
+		// middle of that. What the property says about the client's own
+		// call, subscription and callbacks holds all the same.
+		delete(c.Params, "app_close")
+		c.Params["scenario"] = 2
+		c.Params["crowd"] = 12 + j%5
+		c.Params["stall"] = 0
+		c.Params["flood_loss"] = 1 + j/5%3
+		c.Params["flood_delay"] = j / 15 % 45
+		c.Params["tape_seed"] = int(br.Uint64()>>34) + j
+		c.Params["fault_op"] = -6
+		c.Batch = "client-hosts-a-crowded-object"
+		c.Ops = []core.Op{{Kind: "scenario", X: 2}}
+		return c
+	}
 	if block%10 == 5 {
 		// a block in which a subscriber does not read while more events
 		// arrive than its queue holds (100), a call is made, then the
@@ -141,7 +160,7 @@ type c11state struct {
 func (c11) Run(c *core.Case, env *core.Env) {
 	st := &c11state{}
 	env.Set("st", st)
-	w, err := StartServer(env, bus.Dictionary(map[string]string{"u": "p"}), 1)
+	w, err := StartServer(env, bus.Dictionary(map[string]string{"u": "p"}), 1+c.P("crowd", 0))
 	if err != nil {
 		env.Violate("harness/setup", "%v", err)
 		return
@@ -200,6 +219,8 @@ func (c11) Run(c *core.Case, env *core.Env) {
 		st.mu.Unlock()
 		if n := c.P("flood", 0); n > 0 {
 			c11flood(c, env, st, w, cl, p, n)
+		} else if n := c.P("crowd", 0); n > 0 {
+			c11crowd(c, env, st, w, cl, p, n)
 		} else if mode := c.P("stall", 0); mode > 0 {
 			conn := env.NW.Conns()[0]
 			done := make(chan struct{})
@@ -308,6 +329,95 @@ func c11flood(c *core.Case, env *core.Env, st *c11state, w *World, cl bus.Client
 		st.subsClosed++
 		st.mu.Unlock()
 	}()
+}
+
+// c11crowd: the client hosts an object, lent to every object of the service;
+// another client makes them all relay a call to it at once; the client has a
+// subscription and a call of its own; then the loss.
+func c11crowd(c *core.Case, env *core.Env, st *c11state, w *World, cl bus.Client, p probe.ProbeProxy, n int) {
+	h := env.Invoke(1, "subscribe", "tick")
+	_, ch, err := p.SubscribeTick()
+	env.Return(h, "", err)
+	if err != nil {
+		return
+	}
+	st.mu.Lock()
+	st.subs++
+	st.mu.Unlock()
+	go func() {
+		for v := range ch {
+			st.mu.Lock()
+			st.events = append(st.events, v)
+			st.mu.Unlock()
+		}
+		st.mu.Lock()
+		st.subsClosed++
+		st.mu.Unlock()
+	}()
+	zzsim.SetNode("client")
+	svcRef := p.Proxy().ProxyService(nil)
+	lent := &LentImpl{Env: env, Obj: 100, SlowMs: 2}
+	lp, err := probe.CreateLent(nil, svcRef, lent)
+	zzsim.SetNode("harness")
+	if err != nil {
+		env.Violate("setup/lend", "%v", err)
+		return
+	}
+	other, err := Connect("other", "u", "p")
+	if err != nil {
+		env.Violate("setup/connect", "%v", err)
+		return
+	}
+	var relays []probe.ProbeProxy
+	for i := 0; i < n && i < len(w.ObjIDs); i++ {
+		q, err := ProbeProxy(cl, w.ServiceID, w.ObjIDs[i])
+		if err == nil {
+			err = q.Lend(lp)
+		}
+		if err != nil {
+			env.Violate("setup/lend", "object %d: %v", i, err)
+			return
+		}
+		r, err := ProbeProxy(other, w.ServiceID, w.ObjIDs[i])
+		if err != nil {
+			env.Violate("setup/proxy", "%v", err)
+			return
+		}
+		relays = append(relays, r)
+	}
+	env.S.Quiesce()
+	for i, r := range relays {
+		go func(i int, r probe.ProbeProxy) {
+			// (not judged: these are the other client's calls)
+			r.Relay(probe.Token{Client: 7, Seq: int32(i), Nonce: int64(i), Text: "crowd"})
+		}(i, r)
+	}
+	done := make(chan struct{})
+	go func() {
+		defer close(done)
+		c11call(env, p, "echo", 1, 0)
+	}()
+	for j := 0; j < c.P("flood_delay", 0); j++ {
+		zzsim.Yield("h.crowd-delay")
+	}
+	conn := env.NW.Conns()[0]
+	mode := c.P("flood_loss", 1)
+	seq := zzsim.Seq()
+	st.mu.Lock()
+	st.appClose = seq
+	st.lossKind = []string{"", "app-close-with-a-crowded-hosted-object", "peer-reset-with-a-crowded-hosted-object", "peer-close-with-a-crowded-hosted-object"}[mode]
+	st.mu.Unlock()
+	zzsim.Event("the connection is lost (mode %d) while the object the client hosts is crowded", mode)
+	env.Probe("hosted-object-crowded")
+	switch mode {
+	case 1:
+		cl.Channel().EndPoint().Close()
+	case 2:
+		conn.Peer().Abort()
+	default:
+		conn.Peer().Close()
+	}
+	<-done
 }
 
 func c11call(env *core.Env, p probe.ProbeProxy, kind string, a, i int) {
